@@ -1041,6 +1041,10 @@ HCPread(accrec_t *access_rec, int32 length, void *data)
     else if (length < 0 || access_rec->posn + length > info->length)
         HGOTO_ERROR(DFE_RANGE, FAIL);
 
+    /* the position may have been moved past the end of the element */
+    if (length < 0)
+        HGOTO_ERROR(DFE_RANGE, FAIL);
+
     if ((*(info->minfo.model_funcs.read))(access_rec, length, data) == FAIL)
         HGOTO_ERROR(DFE_MODEL, FAIL);
 
